@@ -11,7 +11,7 @@ import inspect
 import itertools
 
 from zope.interface import Interface, implementer, Attribute, directlyProvides
-from zope.interface.interface import InterfaceClass
+from zope.interface.interface import InterfaceClass, Method, fromFunction
 from zope.interface.verify import verifyObject, verifyClass
 from zope.interface.exceptions import (
     BrokenMethodImplementation, BrokenImplementation, DoesNotImplement,
@@ -33,6 +33,10 @@ def mkfunc(src, name='m'):
     d = {}
     exec('def %s(%s): pass' % (name, src), d)
     return d[name]
+
+
+class _MethodSub(Method):
+    pass
 
 
 def shapes(r, o, va, kw, big):
@@ -58,9 +62,24 @@ def binds(f, n, k, bound):
 def eval_pair(case):
     (ir, io, iva, ikw), (mr, mo, mva, mkw), kind, big = case
     newworld()
-    I = InterfaceClass('I', (Interface,), {'m': mkfunc(sig_src(ir, io, iva, ikw)),
-                                           '__module__': wmod()})
-    if kind == 'func-attr':
+    idesc = mkfunc(sig_src(ir, io, iva, ikw))
+    if kind == 'method/description-of-a-Method-subclass':
+        # the description is an instance of a subclass of Method
+        idesc = fromFunction(idesc, name='m')
+        idesc.__class__ = _MethodSub
+        kind = 'method'
+    elif kind == 'method/description-named-differently':
+        # the description stored under the key 'm' calls itself something else
+        idesc = fromFunction(idesc, name='zz_other')
+        kind = 'method'
+    I = InterfaceClass('I', (Interface,), {'m': idesc, '__module__': wmod()})
+    if kind == 'staticmethod-inherited-class':
+        # the staticmethod is defined by a base class of the class that implements I
+        Kb = type('Kb', (), {'m': staticmethod(mkfunc(sig_src(mr, mo, mva, mkw)))})
+        K = implementer(I)(type('K', (Kb,), {}))
+        cand = K
+        impl, bound, v = K.m, False, verifyClass
+    elif kind == 'func-attr':
         K = implementer(I)(type('K', (), {}))
         cand = K()
         cand.m = mkfunc(sig_src(mr, mo, mva, mkw))
@@ -104,7 +123,7 @@ def eval_pair(case):
         return ('unexpected-exception', type(e).__name__), exp
     if exp != got:
         return ('accepts' if got else 'rejects', 'iface(%s)' % sig_src(ir, io, iva, ikw),
-                'impl(%s)' % sig_src(mr, mo, mva, mkw, kind not in ('func-attr', 'staticmethod-on-provider', 'staticmethod-class')), kind), exp
+                'impl(%s)' % sig_src(mr, mo, mva, mkw, kind not in ('func-attr', 'staticmethod-on-provider', 'staticmethod-class', 'staticmethod-inherited-class')), case[2]), exp
     return None, exp
 
 
@@ -147,7 +166,7 @@ def eval_reuse(case):
     return None
 
 
-DEFECTS = ['no_at', 'no_bat', 'no_m1', 'bad_m2', 'no_bm', 'undeclared', 'm3_not_callable']
+DEFECTS = ['no_at', 'no_al', 'no_bat', 'no_m1', 'bad_m2', 'no_bm', 'undeclared', 'm3_not_callable']
 # bm is *overridden*: IBase says bm(x), I says bm(x, y); only the override counts
 
 
@@ -162,7 +181,7 @@ def eval_subset(case):
     IS1 = InterfaceClass('IS1', (IBase,), {'__module__': wmod()})
     IS2 = InterfaceClass('IS2', (IBase,), {'bm': mkfunc('x, y', 'bm'), '__module__': wmod()})
     I = InterfaceClass('I', (IS1, IS2), {
-        'at': Attribute('the attr'), 'm1': mkfunc('', 'm1'), 'm2': mkfunc('a, b', 'm2'),
+        'at': Attribute('the attr'), 'al': Attribute('zz_al'), 'm1': mkfunc('', 'm1'), 'm2': mkfunc('a, b', 'm2'),
         'm3': mkfunc('', 'm3'), '__module__': wmod()})
     ns = {}
     if 'no_m1' not in flags:
@@ -176,6 +195,9 @@ def eval_subset(case):
         ns['at'] = 1
     if 'no_bat' not in flags:
         ns['bat'] = 2
+    # the interface stores Attribute('zz_al') under the key 'al': the key counts
+    if 'no_al' not in flags:
+        ns['al'] = 3
     if vkind == 'provider':
         # the class object itself is the candidate: its functions are reached
         # unbound, so they take no self
@@ -201,6 +223,8 @@ def eval_subset(case):
             exp.append(('BrokenImplementation', 'at'))
         if 'no_bat' in flags:
             exp.append(('BrokenImplementation', 'bat'))
+        if 'no_al' in flags:
+            exp.append(('BrokenImplementation', 'zz_al'))
     if 'no_m1' in flags:
         exp.append(('BrokenImplementation', 'm1'))
     if 'no_bm' in flags:
@@ -281,7 +305,9 @@ def run(ctx):
     big = 2 * mx + 5          # more surplus positionals than any implementation in the grid absorbs
     cases = [('pair', (a, b, k, big)) for a in GRID for b in GRID
              for k in ('func-attr', 'method', 'class', 'staticmethod-on-provider', 'method-noself',
-                       'staticmethod-class')]
+                       'staticmethod-class', 'staticmethod-inherited-class',
+                       'method/description-of-a-Method-subclass',
+                       'method/description-named-differently')]
     for r in range(0, len(DEFECTS) + 1):
         for flags in itertools.combinations(DEFECTS, r):
             for tentative in (False, True):
@@ -305,5 +331,5 @@ def run(ctx):
     ctx.sample(dict(reuse=cases[-5][1], fields='(interface signature, implementation signature (+self), the two roles in which the same function object is verified, in order)'))
     return finish(
         ctx, 'model_checking',
-        'all pairs of interface-method and implementation signatures in the grid x 4 candidate kinds, decided by binding every call shape the interface admits with inspect.signature; all 2^7 subsets of defects x tentative x verifyObject/verifyClass compared with the exact expected list of failures',
+        'all pairs of interface-method and implementation signatures in the grid x 9 candidate kinds (functions stored on instances, methods, classes under verifyClass, own and inherited staticmethods, instances taken through *args, descriptions that are instances of a Method subclass or carry another name than their key), decided by binding every call shape the interface admits with inspect.signature; all 2^8 subsets of defects x tentative x verifyObject/verifyClass compared with the exact expected list of failures',
         'complete Cartesian products; states = cases')
